@@ -78,7 +78,7 @@ CLAIMED = {
             "Reals; batch<=2, steps<=2(3), tiny images; reduce='max' decided under a strict-maximum assumption.", "4/C18"),
     "C19": (XH, "CrossHair (per-path z3) on the real TrainLoss/ValLoss/EpochStop.stop: bounded symbolic histories vs. a reference state machine + one inductive step from an arbitrary state; CrossHair on the source of ml.train (cut out of training.py on every run, environment stubbed, real stopping conditions) for bounded symbolic loss histories",
             "CrossHair confirms over all paths that for symbolic loss histories (len<=3 quick, <=5 thorough), patience and min_delta the real conditions stop at exactly the "
-            "specified epoch and hand back the best model, for float and non-float scalar representations; the inductive step covers any history length; the real ml.train loop runs exactly to the specified stopping epoch and returns the best epoch's model (len<=3 (5), patience<=2).",
+            "specified epoch and hand back the best model, for float and non-float scalar representations; the inductive step covers any history length; the real ml.train loop runs exactly to the specified stopping epoch and returns the best epoch's model (len<=3 (4), patience<=2).",
             "Bounds: len<=3 (5), patience<=3 (5), losses in [0,100]; non-float scalars modelled by a wrapper + float() stub, validated with genuine np.float32/jax scalars.  "
             "Float rounding and non-finite losses are outside CrossHair's real-valued floats: the check adds concrete runs with genuine float32 / bfloat16 scalars (one-ulp improvements, NaN / inf after a finite first epoch).", "4/C19"),
     "C08": (JX, "symbolic execution of the jaxprs of the real norm / nonlinearity / pooling blocks with symbolic parameters; exact argmax encoding (ITE) under tie-freeness; eigh as a contract stub; z3 (QF_UFNRA)",
